@@ -151,6 +151,8 @@ def main(argv=None):
     ap.add_argument("--jobs", type=int, default=int(os.environ.get("VF_JOBS", "16")))
     ap.add_argument("--no-evidence", action="store_true",
                     help="do not rewrite evidence/<ID>.json (used for mutant runs)")
+    ap.add_argument("--no-replays", action="store_true",
+                    help="do not write witness files under replays/")
     ap.add_argument("--keep", action="store_true")
     args = ap.parse_args(argv)
     prop = args.prop.upper()
@@ -333,19 +335,31 @@ def conclude(prop, args, meta, shards, t0, replay):
     for v in viols:
         first.setdefault(v["key"], v)
 
-    new_keys = [k for k in first if k not in known]
-    known_hit = [k for k in first if k in known]
+    import fnmatch
+
+    def known_pattern(k):
+        """finding: keys may contain '*' (a glob over the value-class / position part of a
+        mechanism key, never over the whole key)."""
+        if k in known:
+            return k
+        for pat in known:
+            if "*" in pat and fnmatch.fnmatchcase(k, pat):
+                return pat
+        return None
+    new_keys = [k for k in first if known_pattern(k) is None]
+    known_hit = [k for k in first if known_pattern(k) is not None]
 
     os.makedirs(os.path.join(ROOT, "replays"), exist_ok=True)
     lines = []
     for k in sorted(known_hit):
-        lines.append("KNOWN-FINDING: property=%s key=%s %s (x%d)" % (prop, k, known[k], viol_counts.get(k, 1)))
+        lines.append("KNOWN-FINDING: property=%s key=%s %s (x%d)"
+                     % (prop, k, known[known_pattern(k)], viol_counts.get(k, 1)))
     replay_paths = []
     for k in sorted(new_keys):
         v = first[k]
         wid = hashlib.blake2b(k.encode(), digest_size=5).hexdigest()
         path = os.path.join("replays", "%s-%s.json" % (prop, wid))
-        if not args.no_evidence or True:
+        if not args.no_replays:
             with open(os.path.join(ROOT, path), "w") as f:
                 json.dump({"property": prop, "key": k, "tier": args.tier, "seed": args.seed,
                            "phase": v["phase"], "shard": v["shard"], "nshards": v["nshards"],
